@@ -9,7 +9,9 @@ RULE = ('one case = (conversion, input bit pattern / integer / string); inputs: 
         'singles and doubles built around k+1/2 (+-1 ulp), +-32767.5, +-32768.5, +-2^23, +-2^24, +-2^55, +-2^56, '
         'doubles with carry byte 0x7f/0x80/0x81 and even/odd/all-ones single mantissa, zero exponents with garbage '
         'mantissa, maximum exponents, plus structured-random patterns; non-trivial = exponent byte non-zero; '
-        'BASIC level: the same conversions nested and in multi-step chains through Session.execute/evaluate')
+        'doubles 1..5 ulp (2^-55 relative) either side of integers and integral doubles >= 2^53 using all 56 bits; '
+        'BASIC level: the same conversions nested and in multi-step chains through Session.execute/evaluate, in the '
+        'default session and again under double=True, syntax=pcjr, syntax=tandy (and values.* with double_math=True)')
 EXPLANATION = ('theorems (PcbV.Props.C03): to_int = round half away from zero (+ CINT Overflow iff |v| beyond the '
                'half-integers), to_int_truncate/FIX = truncation, INT = floor, from_int exact, single->double exact, '
                'double->single one of the two adjacent singles with the half-even-on-carry-byte rule, MKx$/CVx byte '
@@ -173,10 +175,67 @@ def carry_doubles(rng, n):
     return out
 
 
+def near_integer_doubles(rng, n_random):
+    """Doubles 1..5 units in the last place (2^-55 relative) below/above an integer, and integral doubles
+    at and above 2^53 that use all 56 mantissa bits: everything a detour through a 53-bit float would lose."""
+    out = []
+    ks = [1, 2, 3, 4, 5, 7, 8, 10, 100, 255, 256, 4096, 32767, 32768, 65535, 65536, 1000000, (1 << 24) + 1,
+          (1 << 31) - 1, (1 << 40) + 12345, (1 << 52) + 1]
+    ks += [rng.randrange(1, 1 << rng.randrange(2, 53)) for _ in range(n_random)]
+    for k in ks:
+        for sgn in (1, -1):
+            b = enc('d', Fraction(sgn * k))
+            for d in (-5, -4, -3, -2, -1, 1, 2, 3, 4, 5):
+                nb = nudge('d', b, d)
+                if nb is not None:
+                    out.append(nb)
+    # integral values needing more than 53 bits: odd low bits, all ones, just above a power of two
+    mans = [(1 << 56) - 1, (1 << 56) - 3, (1 << 55) + 1, (1 << 55) + 5, (1 << 55) + 7, (1 << 56) - 5]
+    mans += [(1 << 55) | rng.randrange(1 << 55) | rng.choice([1, 3, 5, 7]) for _ in range(n_random)]
+    for man in mans:
+        for sh in (0, 1, 2, 5, 20, 60, rng.randrange(0, 71)):
+            for neg in (False, True):
+                out.append(mbf.make('d', neg, man, BIAS['d'] + sh))
+                # and the same bits with one, two, three binary places after the point
+                out.append(mbf.make('d', neg, man, BIAS['d'] - rng.choice([1, 2, 3])))
+    return out
+
+
+class Tagged(object):
+    """ctx proxy for a run under a non-default configuration: keys, counters and cases carry the tag."""
+
+    def __init__(self, ctx, tag, session):
+        self._c, self._tag, self._session = ctx, tag, session
+
+    def fail(self, key, case, what):
+        self._c.fail(self._tag + key, dict(case, session=self._session, tag=self._tag),
+                     '[%s] %s' % (self._session, what))
+
+    def case(self, key):
+        self._c.case((self._tag,) + key if isinstance(key, tuple) else (self._tag, key))
+
+    def count(self, key, n=1):
+        self._c.count(self._tag + key, n)
+
+    def __getattr__(self, name):
+        return getattr(self._c, name)
+
+
+def tagged(ctx, tag, session):
+    return Tagged(ctx, tag, session) if tag else ctx
+
+
 # --------------------------------------------------------------------------------------------
 # implementation adapter: the real numbers.* / values.* functions
 
 class Impl(mbf.Impl):
+
+    def __init__(self, double_math=False):
+        mbf.Impl.__init__(self)
+        if double_math:
+            # the Values object of a Session(double=True): conversions are specified independently of it
+            self.vs = self.values.Values(None, True)
+            self.vs.set_handler(self.values.FloatErrorHandler(None))
 
     def integer(self, w):
         return self.numbers.Integer(None, self.vs).from_bytes(struct.pack('<H', w))
@@ -311,7 +370,9 @@ def check_float_case(ctx, op, fs, b, out):
 # --------------------------------------------------------------------------------------------
 # value level: numbers.* / values.* against the model and the oracle
 
-def value_level(ctx, impl, singles, doubles, ints, big_ints):
+def value_level(ctx, impl, singles, doubles, ints, big_ints, impl_dm=None):
+    """`impl_dm`: the same values.* entry points on a Values object with double_math=True (Session(double=True))."""
+    ctx_dm = tagged(ctx, 'dm:', 'values.Values(double_math=True)')
     cases, outs, lines = [], [], []
     total = [0]
 
@@ -352,6 +413,13 @@ def value_level(ctx, impl, singles, doubles, ints, big_ints):
                 if out2 != out:
                     ctx.fail('%s-method:%s:%s' % (op, fs, hb), {'op': op, 'fs': fs, 'bytes': hb},
                              'values.%s_ gave %s, numbers.%s gave %s' % (op, out, mop, out2))
+            if impl_dm is not None:
+                for op, mop in (('fix', 'itrunc'), ('int', 'ifloor'), ('cint', 'cint'),
+                                ('cdbl', 'fromsingle') if fs == 's' else ('csng', 'tosingle')):
+                    out = impl_dm.fn(op, fs, b)
+                    if not (op == 'csng' and out.startswith('err')):     # (soft error: the model line carries the value)
+                        add(('dm:' + op, fs, hb), out, '%s %s %s' % (mop, fs, hb))
+                    check_float_case(ctx_dm, op, fs, b, out)
             if fs == 's':
                 out = impl.fn('cdbl', fs, b)
                 add(('cdbl', fs, hb), out, 'fromsingle s %s' % hb)
@@ -456,8 +524,8 @@ def parse_print(out):
 class Basic(object):
     """Thin layer over a real Session: strings go in and out through variables."""
 
-    def __init__(self):
-        self.s = basic.new_session()
+    def __init__(self, **kw):
+        self.s = basic.new_session(**kw)
         self.s.__enter__()
 
     def close(self):
@@ -495,9 +563,12 @@ class Basic(object):
         return 'ok ' + r[1]
 
 
-def basic_level(ctx, singles, doubles, ints, n_chain, deep=None):
+def basic_level(ctx, singles, doubles, ints, n_chain, deep=None, session=None, tag=''):
+    """`session`: keyword arguments of the Session (e.g. double=True); the conversions do not depend on them,
+    so model and oracle are the same for every configuration."""
     rng = ctx.rng
-    B = Basic()
+    ctx = tagged(ctx, tag, session)
+    B = Basic(**(session or {}))
     cases, outs, lines = [], [], []
 
     def add(case, out, line):
@@ -513,16 +584,32 @@ def basic_level(ctx, singles, doubles, ints, n_chain, deep=None):
             for b in pats:
                 hb = mbf.hx(b)
                 # CINT printed; also through an integer variable assignment
-                out = B.int_result('CINT(%s(S$))' % cv, b)
+                # (one PRINT for CINT, \ and MOD: console output is the expensive part of a statement)
+                both = B.int_result('CINT(%s(S$));%s(S$)\\1;%s(S$) MOD 1000' % (cv, cv, cv), b)
+                if both.startswith('ok ') and len(both.split()) == 4:
+                    out, o3 = 'ok ' + both.split()[1], 'ok ' + ' '.join(both.split()[2:])
+                elif both == expect_cint(val(fs, b)):
+                    out = o3 = both
+                else:
+                    out = B.int_result('CINT(%s(S$))' % cv, b)
+                    o3 = B.int_result('%s(S$)\\1;%s(S$) MOD 1000' % (cv, cv), b)
                 add(('cint', fs, hb), out, 'cint %s %s' % (fs, hb))
                 check_float_case(ctx, 'cint', fs, b, out)
-                B.run('I%=0')
-                o2 = B.run('I%%=%s(S$):PRINT I%%' % cv)
+                o2 = B.run('I%%=0:I%%=%s(S$):PRINT I%%' % cv)
                 r2 = parse_print(o2)
                 o2 = 'ok ' + r2[1] if r2[0] == 'ok' else 'err %s' % (r2[1],)
                 if o2 != out:
                     ctx.fail('assign-int:%s:%s' % (fs, hb), {'op': 'cint', 'fs': fs, 'bytes': hb, 'level': 'basic'},
                              'I%%=x gives %s but CINT(x) gives %s' % (o2, out))
+                # \ and MOD round their operands like CINT
+                ctx.case(('basic', 'intdiv', fs, hb))
+                ctx.count('basic:intdiv-mod')
+                n = round_half_away(val(fs, b))
+                e3 = 'ok %d  %s%d' % (n, '-' if n < 0 and abs(n) % 1000 else '', abs(n) % 1000) \
+                    if -32768 <= n <= 32767 else 'err 6'
+                if ' '.join(o3.split()) != ' '.join(e3.split()):
+                    ctx.fail('intdiv:%s:%s' % (fs, hb), {'op': 'intdiv', 'fs': fs, 'bytes': hb, 'level': 'basic'},
+                             'x\\1 ; x MOD 1000 for x = %s gave %s, expected %s' % (val(fs, b), o3, e3))
                 # FIX / INT: bit pattern of the result through MKx$
                 for fn, mop, op in (('FIX', 'itrunc', 'fix'), ('INT', 'ifloor', 'int')):
                     out = B.string_result('%s(%s(%s(S$)))' % (mk, fn, cv), b)
@@ -549,8 +636,7 @@ def basic_level(ctx, singles, doubles, ints, n_chain, deep=None):
                     add(('csng', fs, hb), out, 'tosingle d %s' % hb)
                     check_float_case(ctx, 'csng', fs, b, out)
                     B.put('S$', b)
-                    B.run('X!=0')
-                    oa = B.run('X!=CVD(S$)')
+                    oa = B.run('X!=0:X!=CVD(S$)')
                     o2 = B.string_result('MKS$(X!)', b)
                     if oa.strip():
                         o2 = 'err %s %s' % (parse_print(oa)[1], o2[3:])
@@ -569,7 +655,7 @@ def basic_level(ctx, singles, doubles, ints, n_chain, deep=None):
                 if out != exp:
                     ctx.fail('hexarg:%s:%s' % (fs, hb), {'op': 'hexarg', 'fs': fs, 'bytes': hb, 'level': 'basic'},
                              'HEX$/OCT$ of %s gave %s, expected %s' % (val(fs, b), out, exp))
-        ctx.compare(cases, outs, lines, label='basic')
+        ctx.compare(cases, outs, lines, label=tag + 'basic')
         cases, outs, lines = [], [], []
 
         # integers: HEX$/OCT$ -> &H/&O literal, VAL, MKI$/CVI
@@ -625,7 +711,7 @@ def basic_level(ctx, singles, doubles, ints, n_chain, deep=None):
                 if out != 'err 5':
                     ctx.fail('cvshort:%s:%d' % (t, ln), {'op': 'cvshort', 't': t, 'len': ln, 'level': 'basic'},
                              '%s of a %d-byte string gave %s, expected Illegal function call' % (CV[t], ln, out))
-        ctx.compare(cases, outs, lines, label='basic-int')
+        ctx.compare(cases, outs, lines, label=tag + 'basic-int')
 
         # multi-step chains: every step is checked by the oracle on the implementation's own previous result,
         # and the nested one-line expression must give the same bytes as the stepwise evaluation
@@ -697,6 +783,7 @@ def build_inputs(ctx):
     singles += [mbf.gen_float(rng, 's') for _ in range(4000 if q else 60000)]
     doubles += [mbf.gen_float(rng, 'd') for _ in range(3000 if q else 40000)]
     doubles += carry_doubles(rng, 3000 if q else 40000)
+    doubles += near_integer_doubles(rng, 20 if q else 1500)
     # every single widened (exact) and one carry-byte step beyond
     for b in singles[:1500 if q else 15000]:
         doubles.append(bytes(4) + bytes(b))
@@ -722,11 +809,17 @@ def build_inputs(ctx):
     return singles, doubles, ints, big
 
 
+# configurations of the interpreter under which the BASIC-level slice is repeated: the conversions are specified
+# independently of them (tag, Session keyword arguments, share of the default slice)
+SESSIONS = [('dbl:', {'double': True}, 1.0), ('pcjr:', {'syntax': 'pcjr'}, 0.25), ('tandy:', {'syntax': 'tandy'}, 0.25)]
+
+
 def run(ctx):
     impl = Impl()
+    impl_dm = Impl(double_math=True)
     singles, doubles, ints, big = build_inputs(ctx)
     ctx.log('%d singles, %d doubles, %d integers' % (len(singles), len(doubles), len(ints)))
-    n = value_level(ctx, impl, singles, doubles, ints, big)
+    n = value_level(ctx, impl, singles, doubles, ints, big, impl_dm)
     ctx.log('%d value-level cases' % n)
     ctx.exhaustive = False
     ctx.notes['integers_exhaustive'] = (len(ints) == 65536)
@@ -734,12 +827,26 @@ def run(ctx):
     k = 350 if ctx.quick else 1200
     bs = boundary_floats('s', rng, 0)
     bd = boundary_floats('d', rng, 0)
+    nd = near_integer_doubles(rng, 0)
     sub_s = rng.sample(bs, min(len(bs), k)) + rng.sample(singles, k)
-    sub_d = rng.sample(bd, min(len(bd), k)) + rng.sample(doubles, k) + carry_doubles(rng, k)
+    sub_d = rng.sample(bd, min(len(bd), k)) + rng.sample(doubles, k) + carry_doubles(rng, k) \
+        + rng.sample(nd, min(len(nd), k // 3))
     # (all 65536 integers go through Integer.to_hex/to_oct/from_hex/from_oct above; the parser level takes a subset)
     sub_i = sorted(set(boundary_ints() + rng.sample(ints, 300 if ctx.quick else 16000)))
     deep = None if ctx.quick else set(boundary_ints() + rng.sample(ints, 3000))
     basic_level(ctx, sub_s, sub_d, sub_i, 400 if ctx.quick else 3000, deep)
+    ctx.log('BASIC-level default session done')
+    # the same slice under the other configurations
+    for tag, kw, share in SESSIONS:
+        if ctx.quick and 'syntax' in kw:
+            continue        # nothing in values/ or numbers.py reads the syntax option: thorough tier only
+        k2 = int((24 if ctx.quick else 500) * share)
+        s2 = rng.sample(bs, k2) + rng.sample(singles, k2)
+        d2 = rng.sample(bd, k2) + rng.sample(doubles, k2) + carry_doubles(rng, k2) + rng.sample(nd, min(len(nd), 2 * k2))
+        i2 = rng.sample(boundary_ints(), min(40, k2)) + rng.sample(ints, k2)
+        basic_level(ctx, s2, d2, i2, k2, None, session=kw, tag=tag)
+        ctx.count('sessions:' + tag)
+        ctx.log('BASIC-level slice under %r done' % (kw,))
     ctx.sample({'op': 'cint', 'single': '00007f90', 'impl': impl.fn('cint', 's', mbf.unhx('00007f90'))})
     ctx.sample({'op': 'csng', 'double': '00000080ffff7f81', 'impl': impl.call('tosingle', 'd', mbf.unhx('00000080ffff7f81'))})
 
@@ -749,19 +856,23 @@ def replay(ctx, payload):
     key = payload.get('key')
     sub = Ctx2(ctx)
     impl = Impl()
+    impl_dm = Impl(double_math=True)
     op = case.get('op')
+    tag = case.get('tag', '')
+    session = case.get('session') if isinstance(case.get('session'), dict) else None
     if case.get('level') != 'basic' and op in ('toint', 'trunc', 'cint', 'cintu', 'fix', 'int', 'csng', 'cdbl'):
         b = mbf.unhx(case['bytes'])
-        value_level(sub, impl, [b] if case['fs'] == 's' else [], [b] if case['fs'] == 'd' else [], [], [])
+        value_level(sub, impl, [b] if case['fs'] == 's' else [], [b] if case['fs'] == 'd' else [], [], [], impl_dm)
     elif case.get('level') != 'basic' and op in ('hex', 'oct', 'mki'):
         value_level(sub, impl, [], [], [case['w']], [])
     elif case.get('level') != 'basic' and op in ('fromint', 'fromintu'):
         value_level(sub, impl, [], [], [], [case['n']])
     elif case.get('level') == 'basic' and 'bytes' in case and op != 'chain':
         b = mbf.unhx(case['bytes'])[:SIZE[case['fs']]]
-        basic_level(sub, [b] if case['fs'] == 's' else [], [b] if case['fs'] == 'd' else [], [], 0)
+        basic_level(sub, [b] if case['fs'] == 's' else [], [b] if case['fs'] == 'd' else [], [], 0,
+                    session=session, tag=tag)
     elif case.get('level') == 'basic' and 'w' in case:
-        basic_level(sub, [], [], [case['w']], 0)
+        basic_level(sub, [], [], [case['w']], 0, session=session, tag=tag)
     else:
         import random
         sub.rng = random.Random(payload.get('seed', 0))
